@@ -399,10 +399,21 @@ def points(ctx):
         for tf in TRANSF:
             for al in ("none", "as"):
                 for proj in (None, "xy"):
-                    p = dict(base)
-                    p.update(transform=tf, align=al, project=proj)
-                    pts.append(p)
+                    for export in ("tum", "kitti"):
+                        for nfiles in (1, 2):
+                            p = dict(base)
+                            p.update(transform=tf, align=al, project=proj,
+                                     export=export, nfiles=nfiles)
+                            pts.append(p)
         pts.append(dict(base, transform=TRANSF[0]))
+        # + the full product of the processing options (no transformation)
+        proc = [("nfiles", [1, 2]), ("downsample", [None, 5]),
+                ("motion_filter", DIMS[2][1]), ("merge", [False, True]),
+                ("t_offset", [0.0, 0.125]), ("align", ALIGN),
+                ("n_to_align", [-1, 4]), ("project", [None, "xz"]),
+                ("t_max_diff", [0.01, 0.3]), ("export", ["tum", "kitti"])]
+        for q in lattice.product(proc):
+            pts.append(dict(q, transform=TRANSF[0]))
     fpts = lattice.product(FORMAT_DIMS) if ctx.thorough else \
         lattice.pairwise(FORMAT_DIMS, seed=ctx.seed)
     return pts + fpts
@@ -417,7 +428,8 @@ def run(ctx):
         "exports of runs with at least one processing option" %
         (", ".join("%s(%d)" % (n, len(v)) for n, v in DIMS),
          "full product" if ctx.thorough else
-         "pairwise-covering subset + full transformation sub-lattice"))
+         "pairwise-covering subset + full transformation sub-lattice + full "
+         "product of the processing options"))
     acc.bounds = {"lattice_points": len(pts)}
     acc.exhaustive = True
     acc.assumptions = [
